@@ -118,7 +118,9 @@ Theorem C14_side_boxes_do_not_overlap avail a b c gen_b :
     let '(pa, pb, pc) := side_positions avail a' b' c' in
     0 <= pa /\ pc + outer_of c' <= avail /\
     (gen_b = true -> pa + outer_of a' <= pb /\ pb + outer_of b' <= pc) /\
-    (gen_b = false -> pa + outer_of a' <= pc).
+    (gen_b = false -> pa + outer_of a' <= pc) /\
+    (0 <= outer_of a' -> 0 <= outer_of b' -> 0 <= outer_of c' ->
+       pa + outer_of a' <= avail /\ 0 <= pc /\ (gen_b = true -> 0 <= pb /\ pb + outer_of b' <= avail)).
 Proof. exact (side_boxes_do_not_overlap avail a b c gen_b). Qed.
 Print Assumptions C14_side_boxes_do_not_overlap.
 
